@@ -401,6 +401,12 @@ func runC09(c *Ctx) {
 				c.Analysed(fi)
 				ok2, why := countCompared(info, fi.Decl.Body, call)
 				c.Check(ok2, r1, fi.Name()+"->copy-into-boundedWriter", call.Pos(), orStr(why, "the inflated length is compared with the declared size (underrun rejected)"))
+				// … and on every path: no successful return is reachable from the copy without crossing the edge on
+				// which the count is known to equal the declared size (a check that sits inside a branch for some entry
+				// types only lets the other types through)
+				if ok2 {
+					exactInflateAllPaths(c, r1, fi, call)
+				}
 			})
 		}
 		if n < 2 {
